@@ -1177,7 +1177,10 @@ int vorbis_encode_ctl(vorbis_info *vi,int number,void *arg){
         double *farg=(double *)arg;
         hi->lowpass_kHz=*farg;
 
-        if(hi->lowpass_kHz<2.)hi->lowpass_kHz=2.;
+        /* written so that a NaN is clamped as well: it compares false
+           with everything, and the residue set-up turns this value
+           into an integer bound */
+        if(!(hi->lowpass_kHz>=2.))hi->lowpass_kHz=2.;
         if(hi->lowpass_kHz>99.)hi->lowpass_kHz=99.;
         hi->lowpass_altered=1;
       }
